@@ -619,7 +619,7 @@ func dropSingleEdgePhis(f *ssa.Function) bool {
 // shape the code had before the helper was extracted.
 func dupResultReturns(f *ssa.Function) bool {
 	for _, x := range f.Blocks {
-		if x == f.Blocks[0] || x == f.Recover || len(x.Preds) < 2 || len(x.Instrs) < 2 {
+		if x == f.Blocks[0] || x == f.Recover || len(x.Preds) < 2 || len(x.Instrs) < 1 {
 			continue
 		}
 		ret, ok := x.Instrs[len(x.Instrs)-1].(*ssa.Return)
@@ -654,7 +654,10 @@ func dupResultReturns(f *ssa.Function) bool {
 				}
 			}
 		}
-		if !okShape || nphi == 0 || len(body) > 8 {
+		// a bare `return v…` shared by several branches (`if a || b { return x }`)
+		// is duplicated as well: each copy then has the facts of its own branch
+		bare := nphi == 0 && len(body) == 0
+		if !okShape || (nphi == 0 && !bare) || len(body) > 8 {
 			continue
 		}
 		var added []*ssa.BasicBlock
@@ -882,6 +885,9 @@ func forwardLocalStores(f *ssa.Function) bool {
 // function that was not otherwise rewritten.
 func threadOnly(f *ssa.Function) {
 	did := false
+	for dupResultReturns(f) {
+		did = true
+	}
 	for iter := 0; iter < 100; iter++ {
 		progress := false
 		for _, x := range f.Blocks {
